@@ -176,4 +176,47 @@ InDomain(fm, ops) ==
     /\ \A n \in DOMAIN fm : fm[n].kind = "table" /\ fm[n].pre
     /\ \A i \in 1..Len(ops) : ops[i].op = "Tf" => OpKind(ops[i]) = "TfName" /\ ops[i].args[1].v \in DOMAIN fm
 ReturnsShown(fm, ops, et) == et.ok /\ Strip(et.t) = Strip(AllShown(fm, ops))
+
+-----------------------------------------------------------------------------
+(* Call level: extract_text_chunks(page_numbers) on a document.                                     *)
+(*   doc   sequence of pages [fm, ops] in page-tree order (page number = index)                     *)
+(*   nums  the requested page numbers, in the order given; repeats allowed; a number that names no   *)
+(*         page contributes the single chunk Err (PageNumberNotFound)                                *)
+(* Declarative: font resource names are local to a page, so every requested page contributes the      *)
+(* chunks computed from THAT page's font map and operations alone -- clause (e), per-page            *)
+(* independence: a call is the concatenation of the one-page calls.                                   *)
+
+PageChunks(doc, n) == IF n \in 1..Len(doc) THEN Run(doc[n].fm, doc[n].ops) ELSE <<ErrChunk>>
+CallChunks(doc, nums) == Concat([i \in 1..Len(nums) |-> PageChunks(doc, nums[i])])
+
+\* (e) on observed values: `whole' is what the call returned, singles[i] what the call for nums[i] alone returned
+ClauseE(whole, singles) == whole = Concat(singles)
+
+CallInDomain(doc, nums) == \A i \in 1..Len(nums) : nums[i] \in 1..Len(doc) /\ InDomain(doc[nums[i]].fm, doc[nums[i]].ops)
+CallShown(doc, nums) == Concat([i \in 1..Len(nums) |-> IF nums[i] \in 1..Len(doc) THEN AllShown(doc[nums[i]].fm, doc[nums[i]].ops) ELSE <<>>])
+CallReturnsShown(doc, nums, et) == et.ok /\ Strip(et.t) = Strip(CallShown(doc, nums))
+
+(* Impl-shaped: the loop of extract_text_chunks over the page numbers.  As the code is, every page      *)
+(* builds its encodings map afresh.  The switch "carry" (not in the code; TLC must refute it) keeps     *)
+(* one name -> encoding map for the whole call and lets a page resolve only the names not yet in it.   *)
+AllCallDevs == {"carry"}
+
+\* the font map a page effectively works with, given what earlier pages of the call left behind
+EffectiveFm(carried, fm, dev) ==
+    IF "carry" \in dev
+    THEN [n \in (DOMAIN carried) \cup (DOMAIN fm) |-> IF n \in DOMAIN carried THEN carried[n] ELSE fm[n]]
+    ELSE fm
+\* ... and what this page leaves behind (broken fonts are never kept)
+CarryAfter(carried, fm, dev) ==
+    IF "carry" \in dev
+    THEN LET e == EffectiveFm(carried, fm, dev) IN [n \in Known(e) |-> e[n]]
+    ELSE carried
+
+CallRun(doc, nums, dev) ==
+    FoldLeft(LAMBDA acc, n :
+                 IF n \in 1..Len(doc)
+                 THEN [out |-> acc.out \o Run(EffectiveFm(acc.carried, doc[n].fm, dev), doc[n].ops),
+                       carried |-> CarryAfter(acc.carried, doc[n].fm, dev)]
+                 ELSE [acc EXCEPT !.out = Append(@, ErrChunk)],
+             [out |-> <<>>, carried |-> <<>>], nums).out
 =============================================================================
